@@ -8,6 +8,7 @@ package transport
 import (
 	"fmt"
 	"io"
+	"runtime"
 	"strings"
 	"testing"
 	"time"
@@ -90,7 +91,7 @@ func (s *c14Server) reply(ci int, q env.PeerQuery, whole bool) []byte {
 	return b
 }
 
-var c14Faults = []string{"none", "silent", "half-prefix", "half-body", "garbage", "fin", "abort", "stall-write"}
+var c14Faults = []string{"none", "silent", "half-prefix", "half-body", "garbage", "fin", "abort", "slow-reply", "stall-write"}
 
 func c14Scenario(c *choice.Ctx, rep *report.R, k c14Kind) {
 	own := env.InstallOwn(0xA5, vRace)
@@ -169,11 +170,42 @@ func c14Scenario(c *choice.Ctx, rep *report.R, k c14Kind) {
 	}
 
 	// ---- phase 2: faults on pooled (idle) connections; each non-default answer is one fault
-	idleWait := c.Choose(2, "idle-wait")
-	if idleWait == 1 {
+	// 0: none; 1: 5 s; 2: 9.5 s (just short of the 10 s idle timeout of the tcp kinds: the idle deadline falls into the next
+	// exchange); 3: 10 s, and closing a socket takes a moment, so the idle timer is still inside its close when the exchanges start
+	idleWait := c.Choose(4, "idle-wait")
+	slowClose := false
+	switch idleWait {
+	case 1:
 		hsleep(5 * time.Second)
 		wait()
 		note("idle5s")
+	case 2:
+		hsleep(9500 * time.Millisecond)
+		wait()
+		note("idle9.5s")
+	case 3:
+		for ci := 0; ci < pooled; ci++ {
+			d.ImplEnd(ci).StallClose()
+		}
+		slowClose = pooled > 0
+		hsleep(10 * time.Second)
+		wait() // whoever closes the idle connections is now parked inside the socket close (a channel wait: the bubble is quiescent)
+		note("idle10s(slow socket close)")
+	}
+	releaseCloses := func() {
+		if !slowClose {
+			return
+		}
+		slowClose = false
+		// goroutines may be blocked on a mutex held across the parked close: quiescence cannot be awaited before the release
+		for i := 0; i < 2000; i++ {
+			hmu.Unlock()
+			runtime.Gosched()
+			hmu.Lock()
+		}
+		for ci := 0; ci < pooled; ci++ {
+			d.ImplEnd(ci).ReleaseClose()
+		}
 	}
 	for ci := 0; ci < pooled; ci++ {
 		switch c.Deviate(4, fmt.Sprintf("idle-fault(c%d)", ci)) {
@@ -229,14 +261,21 @@ func c14Scenario(c *choice.Ctx, rep *report.R, k c14Kind) {
 	}
 	t0 := time.Now()
 	note("start x%d fault=%s", n, fname)
+	releaseCloses()
 	wait()
+	if fname == "slow-reply" {
+		// a healthy but slow server: every reply takes 0.8 s
+		hsleep(800 * time.Millisecond)
+		wait()
+		srv.healthy = true
+	}
 	srv.pump()
 	// apply the connection fault to every frame the faulty server has received so far, then become healthy
 	var faultAt time.Time
 	dialsAtFault := d.NumDials()
 	killed := map[int]bool{}
 	victims := map[int][]string{} // conn -> names of the queries it carried when the fault hit
-	if connFault != 0 {
+	if connFault != 0 && fname != "slow-reply" {
 		for ci := 0; ci < d.NumConns(); ci++ {
 			impl := d.ImplEnd(ci)
 			qs := env.QueriesOn(ci, impl, k.tcp)
@@ -290,6 +329,18 @@ func c14Scenario(c *choice.Ctx, rep *report.R, k c14Kind) {
 	}
 	totalFaults := c.Deviations()
 	// (b)/(c): with a healthy server reachable (no dial/conn fault in phase 3) every exchange succeeds at once, whatever happened to pooled connections
+	if dialFault == 0 && fname == "slow-reply" {
+		// nothing is wrong with this server, it is only slow (well inside the exchange deadline): if the connection's own idle deadline
+		// fires meanwhile the exchange is retried, and the retry is answered 0.8 s later as well
+		hsleep(900 * time.Millisecond)
+		wait()
+		srv.pump()
+		for _, cl := range calls {
+			if !cl.done || cl.resp == nil {
+				fail("slow-healthy-server-not-survived", fmt.Sprintf("exchange %d against a healthy server that answers every query after 0.8 s did not succeed within %v: %s [%s]", cl.idx, time.Since(t0), cl, strings.ReplaceAll(fmt.Sprint(cl.err), "\n", " | ")))
+			}
+		}
+	}
 	if dialFault == 0 && connFault == 0 {
 		for _, cl := range calls {
 			if !cl.done || cl.resp == nil {
@@ -390,7 +441,7 @@ func TestVerifC14(t *testing.T) {
 	rep := report.New("C14 deadlines and stale connections")
 	defer rep.Write()
 	bound := report.ParamInt("FAULTS", 2)
-	rep.Rule = fmt.Sprintf("E3 fault enumeration on the real pipeline-tcp, pipeline-udp and reuse-tcp transports in a synctest bubble: warm 0..2 pooled exchanges; pooled pipelined connection with its id counter at 0 or at 65535 (one id left); optional 5s idle; per pooled connection {ok, FIN, abort, garbage+FIN} while idle; "+
+	rep.Rule = fmt.Sprintf("E3 fault enumeration on the real pipeline-tcp, pipeline-udp and reuse-tcp transports in a synctest bubble: warm 0..2 pooled exchanges; pooled pipelined connection with its id counter at 0 or at 65535 (one id left); idle wait {none, 5 s, 9.5 s (idle deadline falls into the next exchange), 10 s with the idle timer's socket close taking a moment}; per pooled connection {ok, FIN, abort, garbage+FIN} while idle; "+
 		"then 1..2 concurrent exchanges with next dial {ok, refused, hangs} and first-connection fault {%s}; <=%d faults per execution, all combinations; afterwards a healthy server; "+
 		"oracle: return by deadline (exact virtual clock), success in zero virtual time when only pooled connections are stale, waiters released in the instant their connection dies, <=7 dials per exchange, no (nil,nil), "+
 		"transport still usable afterwards, ownership audit", strings.Join(c14Faults, ","), bound)
